@@ -85,6 +85,12 @@ module Nat :
   val ltb : nat -> nat -> bool
 
   val max : nat -> nat -> nat
+
+  val even : nat -> bool
+
+  val divmod : nat -> nat -> nat -> nat -> nat * nat
+
+  val div : nat -> nat -> nat
  end
 
 module Pos :
@@ -180,6 +186,8 @@ val combine : 'a1 list -> 'a2 list -> ('a1 * 'a2) list
 val firstn : nat -> 'a1 list -> 'a1 list
 
 val skipn : nat -> 'a1 list -> 'a1 list
+
+val seq : nat -> nat -> nat list
 
 val repeat : 'a1 -> nat -> 'a1 list
 
@@ -1030,6 +1038,82 @@ val fama_parse_ctc : xml -> char list list -> ctc result
 
 val fama_read : xml -> pfm result
 
+val metric_methods : char list list
+
+type mval =
+| MNames of char list list
+| MStr of char list
+| MInt of z
+| MHund of z
+
+type entry = { me_method : char list; me_name : char list; me_result : 
+               mval; me_size : z option; me_ratio : z option;
+               me_parent : char list option; me_level : z }
+
+val zlen : 'a1 list -> z
+
+val get_ratio : z -> z -> z -> z
+
+val mk :
+  char list -> char list -> mval -> z option -> z option -> char list option
+  -> z -> entry
+
+val listing :
+  char list -> char list -> char list list -> char list list -> char list ->
+  z -> entry
+
+val ctc_str : ctc -> char list
+
+val is_abstract_truthy : feature -> bool
+
+val feat_is_grouped : feature option -> feature -> bool
+
+val zmin_list : z list -> z -> z
+
+val zmax_list : z list -> z -> z
+
+val zsort : z list -> z list
+
+val median_hund : z list -> z
+
+val mean_hund : z list -> z
+
+val fctx : fm -> (feature option * feature) list
+
+val feats : fm -> feature list
+
+val fnames : fm -> char list list
+
+val abstract_names : fm -> char list list
+
+val concrete_names : fm -> char list list
+
+val leaf_names_ : fm -> char list list
+
+val nchildren_of : feature -> z
+
+val cpf : fm -> z list
+
+val leaf_depths : fm -> z list
+
+val group_names : fm -> char list list
+
+val solitary_names : fm -> char list list
+
+val grouped_names : fm -> char list list
+
+val ctc_strs : fm -> nat list -> char list list
+
+val ctc_listing_entry :
+  fm -> char list -> char list -> nat list result -> nat list result ->
+  char list -> z -> entry result
+
+val all_ctc_idx : fm -> nat list result
+
+val metric : fm -> char list -> entry result
+
+val report : fm -> char list list option -> entry list result
+
 val e_aval : aval -> sexp
 
 val d_aval : sexp -> aval option
@@ -1101,6 +1185,10 @@ val hk_eqb :
   (((char list * char list list) * rkey list) * char list list) -> bool
 
 val op_eqq : fm -> fm -> sexp
+
+val e_mval : mval -> sexp
+
+val e_entry : entry -> sexp
 
 val bad : char list -> sexp
 
